@@ -11,6 +11,7 @@ from ..poly import Poly, to_poly
 from ..report import Ctx
 from ..symint import decide_cmp
 from ..variants import Variant
+from .common import labelmap_api
 from .labelrun import CAP, LBLMAX, LUT, LV, RelabelInterp, VoxelArr, chains, dt_sym
 from .resultrun import Tagged
 
@@ -60,7 +61,7 @@ def setup(prog, IN: str, voxel: str, cfg=None):
         "n_prediction_instance": n_pred,
         "n_reference_instance": n_ref,
     })
-    lm = Obj(lmcls, {"labelmap": {LV(preds[p - 1]): LV(refs[r - 1]) for p, r in MATCH.items()}})
+    lm = Obj(lmcls, {labelmap_api(prog)["dict_attr"]: {LV(preds[p - 1]): LV(refs[r - 1]) for p, r in MATCH.items()}})
     return refs, preds, domain, pair, lm, pred_arr, ref_arr
 
 
